@@ -595,8 +595,8 @@ func c09CloseIdentity(c *Ctx, r *Report, rule string) {
 		guarded := false
 		for _, cond := range edgeConds(call.Block()) {
 			bo, ok := cond.V.(*ssa.BinOp)
-			if !ok || bo.Op != token.EQL || !cond.Truth {
-				continue
+			if !ok || !((bo.Op == token.EQL && cond.Truth) || (bo.Op == token.NEQ && !cond.Truth)) {
+				continue // the edge on which the two are the same connection
 			}
 			for _, pr := range [][2]ssa.Value{{bo.X, bo.Y}, {bo.Y, bo.X}} {
 				entry, other := pr[0], pr[1]
